@@ -1,5 +1,5 @@
 (** * C01 — scalar expressions keep their meaning when translated to SQL (partial). *)
-From PQL Require Import Model.Compile Proofs.TableFacts Proofs.WriterFacts.
+From PQL Require Import Model.Compile Model.Trans Spec.PqlSem Proofs.TableFacts Proofs.WriterFacts Proofs.MeaningFacts.
 From Coq Require Import String.
 Local Open Scope list_scope.
 Local Open Scope nat_scope.
@@ -39,3 +39,17 @@ Theorem C01_rewrites_parenthesised :
   forallb (fun nf => match snd nf with (w, np) => np || template_is_operand (writer_template w) end) known_funcs = true.
 Proof. exact needs_parens_sound. Qed.
 Print Assumptions C01_rewrites_parenthesised.
+
+(** Meaning: the SQL tree the writer intends for an expression evaluates, on every row (NULLs
+    included), in every environment (join sides, groups) and for every interpretation of the
+    pass-through functions, to the value of the PQL expression read with PQL's own grouping:
+    ==/!= never NULL, =~/!~ through lower(), and/or Kleene, in, indexing, signs, the documented
+    built-ins rewritten, everything else passed through by name with its arguments. *)
+Theorem C01_meaning : forall F is_bound jm,
+  is_agg F w_coalesce = false ->
+  is_agg F w_lower = false /\ is_agg F w_LOWER = false /\ is_agg F w_UPPER = false ->
+  is_agg F w_count = true ->
+  forallb (fun n => negb (is_agg F n)) [p_not; p_isnull; p_isnotnull; p_iff; p_iif; p_strcat; p_tolower; p_toupper; p_nowf; p_countif] = true ->
+  forall x e, seval F e (trans is_bound jm x) = peval F is_bound jm e x.
+Proof. exact trans_meaning. Qed.
+Print Assumptions C01_meaning.
